@@ -9,7 +9,7 @@ assumed).  It records *obligations* (rule instances) with the verdict of every t
 reached them.
 """
 from collections import namedtuple, OrderedDict
-from facts import strip_refs, callee_name, is_debug_only_switch, expn_has
+from facts import pointee as _pointee, strip_refs, callee_name, is_debug_only_switch, expn_has
 
 T = namedtuple("T", "kind uniq ref acq inc asg dirty ret facts")
 
@@ -38,6 +38,11 @@ WRITE_PRIMS = {
     "core::ptr::non_null::NonNull::<T>::write": 0, "core::ptr::non_null::NonNull::<T>::copy_from_nonoverlapping": 0,
     "core::ptr::non_null::NonNull::<T>::copy_from": 0, "core::ptr::non_null::NonNull::<T>::copy_to_nonoverlapping": 1, "core::ptr::non_null::NonNull::<T>::copy_to": 1,
     "core::slice::<impl [T]>::copy_from_slice": 0, "core::slice::<impl [T]>::clone_from_slice": 0, "core::slice::<impl [T]>::fill": 0,
+    "core::slice::<impl [T]>::copy_within": 0, "core::slice::<impl [T]>::swap": 0, "core::slice::<impl [T]>::reverse": 0,
+    "core::slice::<impl [T]>::rotate_left": 0, "core::slice::<impl [T]>::rotate_right": 0, "core::slice::<impl [T]>::fill_with": 0,
+    "core::slice::<impl [T]>::swap_with_slice": 0,
+    "core::slice::ascii::<impl [u8]>::make_ascii_uppercase": 0, "core::slice::ascii::<impl [u8]>::make_ascii_lowercase": 0,
+    "core::str::<impl str>::make_ascii_uppercase": 0, "core::str::<impl str>::make_ascii_lowercase": 0,
     "core::char::methods::<impl char>::encode_utf8": 1,
 }
 
@@ -177,6 +182,8 @@ class Solver:
         k = e[0]
         tk, ti = tracked
         if k == "param":
+            if tk == "ptrparam" and e[1] == ti:
+                return "bufptr"   # a helper over raw parts: this parameter is the handle's buffer pointer
             return "self" if (tk == "param" and e[1] == ti) else None
         if k in ("local", "mem"):
             return "self" if (tk == "local" and e[1] == ti) else None
@@ -210,9 +217,11 @@ class Solver:
                 if e[2] == 0 and ty in ("repr::Repr", "repr::heap_buffer::HeapBuffer", "repr::static_buffer::StaticBuffer"):
                     return "bufptr"
                 return None
-            if c == "header" and e[2] == 0:
+            if c == "header" and (("atomic::Atomic" in e[3]) if (len(e) > 3 and e[3]) else e[2] == 0):
                 return "counter"
             if c in ("header", "derived"):
+                if len(e) > 3 and e[3] and _pointee(e[3]) == "repr::heap_buffer::Header":
+                    return "header"
                 return "derived"
             return None
         if k == "call":
@@ -222,6 +231,14 @@ class Solver:
             a0 = self.canon(body, tracked, args[0], depth + 1) if args else None
             if n in VIEW_FNS and a0 == "self":
                 return "self"
+            # what the result points to decides what it is, whatever the accessor is called: the
+            # header of this handle's allocation, or the reference counter inside it
+            if a0 in ("self", "header", "bufptr", "alloc", "derived") and not t["dest"]["p"] and (t.get("local_key") or n.startswith("core::ptr::")):
+                pt = _pointee(body.local_ty(t["dest"]["l"]))
+                if pt == "repr::heap_buffer::Header" and body.local_ty(t["dest"]["l"]).strip()[0] in "&*":
+                    return "header"
+                if "atomic::Atomic" in pt and t.get("local_key"):
+                    return "counter"
             if n in PTR_TRANSPARENT and a0 is not None:
                 return a0
             if n == "repr::heap_buffer::HeapBuffer::reference_count" and a0 == "self":
@@ -245,6 +262,12 @@ class Solver:
                     return "derived"
             if (n.startswith("core::ptr::mut_ptr::<impl *mut T>::") or n.startswith("core::ptr::const_ptr::<impl *const T>::") or n.startswith("core::ptr::non_null::NonNull::<T>::")) and a0 in ("derived", "header"):
                 return "derived"
+            # slice / str methods that return a pointer or a sub-view of the view they are given
+            # (as_mut_ptr, as_bytes_mut, get_unchecked_mut, index_mut, split_at_mut ...)
+            if a0 in ("derived", "header", "bufptr", "alloc") and not t["dest"]["p"] and (n.startswith("core::str::") or n.startswith("core::slice::") or n.startswith("core::ops::index::") or n.startswith("<[") or n.startswith("<str as ")):
+                dty = body.local_ty(t["dest"]["l"]).strip()
+                if dty.startswith("&") or dty.startswith("*") or dty.startswith("("):
+                    return "derived"
             return None
         return None
 
@@ -546,6 +569,9 @@ class Solver:
                 bad = (t.kind == "H" and t.ref == "own")
                 self.ob("R3", body, site, s.get("line", 0), not bad, how="old value holds no counted reference (kind=%s ref=%s)" % (t.kind, t.ref),
                         detail="plain overwrite of a handle that still owns a counted heap reference (kind=H ref=own); new value: %s" % desc)
+                if t.kind == "H":
+                    self.ob("P5", body, site, s.get("line", 0), t.ref not in ("rel", "last"), how="old value's release was decided (ref=%s)" % t.ref,
+                            detail="handle overwritten in state ref=%s: its reference was given up by a decrement whose result %s, so when the other owners drop theirs first nobody frees the buffer" % (t.ref, "was not examined" if t.ref == "rel" else "said 'last owner' but the buffer was not freed"))
                 for (k, u) in kinds:
                     out.add(t._replace(kind=k, uniq=u, ref="own", acq=False, asg=True, dirty=t.dirty or not vp))
             return out
@@ -707,7 +733,7 @@ class Solver:
         elif k in ("resume", "terminate"):
             for s in cur:
                 self._exit_checks(body, tracked, bb, s, "unwind")
-                exits.add(("unwind", self._repair(s)._replace(facts=frozenset())))
+                exits.add((self._unwind_cls(s), self._repair(s)._replace(facts=frozenset())))
         elif k == "unreachable":
             pass
         elif k == "drop":
@@ -729,11 +755,13 @@ class Solver:
 
     def _drop_guard(self, body, tracked, bb, t, cur):
         """Dropping a local whose type has a local Drop impl and which holds the tracked handle in a
-        field (a scope guard such as retain's SetLenOnDrop): the calls its Drop makes on that field
-        happen here, in the current state."""
+        field (a scope guard such as retain's SetLenOnDrop, or a release-on-drop guard): its Drop body
+        runs here, in the current state, on that field."""
         if not t.get("local_drops") or t["pl"]["p"]:
             return cur
-        g = t["pl"]["l"]
+        return self._drop_effects(body, tracked, t["pl"]["l"], t["local_drops"], cur)
+
+    def _drop_effects(self, body, tracked, g, local_drops, cur):
         ds = body.defs.get(g, [])
         if len(ds) != 1 or ds[0][1] == "term" or ds[0][2]["k"] != "aggregate":
             return cur
@@ -742,46 +770,25 @@ class Solver:
         if not self_fields:
             return cur
         out = set(cur)
-        for dk in t["local_drops"]:
+        for dk in local_drops:
             db = self.F.bodies.get(dk)
             if db is None:
                 continue
-            for cbb, ct in db.calls():
-                key = ct.get("local_key")
-                if not key or key not in self.F.bodies:
-                    continue
-                n = callee_name(ct)
-                for j, a in enumerate(ct["args"]):
-                    e = strip_refs(db.origin_operand(a))
-                    # (*p1).i  — the guard's field holding the handle
-                    while e[0] in ("ref", "rawptr"):
-                        e = strip_refs(e[2])
-                    if e[0] == "deref":
-                        e = strip_refs(e[1])
-                    if e[0] == "field" and e[2] in self_fields and strip_refs(e[1]) in (("deref", ("param", 1)), ("param", 1)):
-                        site = "drop(%s):%s" % (t["ty"].split("<")[0].rsplit("::", 1)[-1], n)
-                        nxt = set()
-                        for s0 in out:
-                            s1 = s0
-                            if n in CONTRACTS:
-                                obn, pred = CONTRACTS[n]
-                                good = pred(s0)
-                                self.ob("R-contract." + obn, body, site, t.get("line", 0), good, how="state kind=%s uniq=%s" % (s0.kind, s0.uniq),
-                                        detail="the guard dropped here calls %s, which requires %s; reachable state kind=%s uniq=%s ref=%s (e.g. an early error return taken before the handle was made modifiable)" % (n, obn, s0.kind, s0.uniq, s0.ref))
-                                if not good:
-                                    s1 = s0._replace(uniq=True, ref="own") if s0.kind != "S" else s0
-                            self.ctx_stack.append(body.path)
-                            self.pclass_stack.append(())
-                            try:
-                                res = self.summary(self.F.bodies[key], ("param", j + 1), s1)
-                            finally:
-                                self.ctx_stack.pop()
-                                self.pclass_stack.pop()
-                            for cls, s2 in res:
-                                if cls == "unwind":
-                                    continue
-                                nxt.add(s1._replace(kind=s2.kind, uniq=s2.uniq, ref=s2.ref, acq=s2.acq, inc=s2.inc, asg=s1.asg or s2.asg, dirty=s1.dirty or s2.dirty))
-                        out = nxt or out
+            for i in self_fields:
+                nxt = set()
+                for s0 in out:
+                    self.ctx_stack.append(body.path)
+                    self.pclass_stack.append(())
+                    try:
+                        res = self.summary(db, ("upvar", i), s0)
+                    finally:
+                        self.ctx_stack.pop()
+                        self.pclass_stack.pop()
+                    for cls, s2 in res:
+                        if isinstance(cls, str) and cls.startswith("unwind"):
+                            continue
+                        nxt.add(s0._replace(kind=s2.kind, uniq=s2.uniq, ref=s2.ref, acq=s2.acq, inc=s2.inc, asg=s0.asg or s2.asg, dirty=s0.dirty or s2.dirty))
+                out = nxt or out
         return out
 
     def _repair(self, s):
@@ -812,6 +819,9 @@ class Solver:
         bad = s.ref != "own"
         self.ob("R2", body, site, body.line(bb), not bad, how="ref=own",
                 detail="function exits (%s) in state ref=%s kind=%s: the handle still names a buffer whose reference it gave up" % (how, s.ref, s.kind))
+        if how == "unwind" and ("allocpanic", True) in s.facts and tracked[0] == "param" and body.local_ty(tracked[1]).startswith("&mut"):
+            self.ob("R-panicatomic", body, "exit:alloc-panic", body.line(bb), not s.dirty, how="no effect before the allocation-failure panic",
+                    detail="the panic taken when the allocator refuses memory is reached with the receiver already changed (dirty=%s kind=%s): the plain form does not leave the value it was given" % (s.dirty, s.kind))
         if how == "return":
             self.ob("P1", body, "exit:inc", body.line(bb), s.inc == 0, how="increments consumed",
                     detail="reference count incremented without producing a new handle (inc=%d at return)" % s.inc)
@@ -964,6 +974,9 @@ class Solver:
                     bad = (s.kind == "H" and s.ref == "own")
                     self.ob("R3", body, "assign-self:" + site, line, not bad, how="old value holds no counted reference",
                             detail="call result overwrites a handle that still owns a counted heap reference; new value: %s" % desc)
+                    if s.kind == "H":
+                        self.ob("P5", body, "assign-self:" + site, line, s.ref not in ("rel", "last"), how="old value's release was decided (ref=%s)" % s.ref,
+                                detail="handle overwritten in state ref=%s: the decrement's result does not decide who frees the buffer" % s.ref)
                     for (k, u) in kinds:
                         out.add(s._replace(kind=k, uniq=u, ref="own", acq=False, asg=True, dirty=True))
                 states = out
@@ -992,7 +1005,7 @@ class Solver:
                     add(t["unwind"], {s})
                 elif t["unwind"] == "continue":
                     self._exit_checks(body, tracked, bb, s, "unwind")
-                    exits.add(("unwind", self._repair(s)._replace(facts=frozenset())))
+                    exits.add((self._unwind_cls(s), self._repair(s)._replace(facts=frozenset())))
 
         # ---- atomics
         if n.startswith("core::sync::atomic::"):
@@ -1035,6 +1048,13 @@ class Solver:
                 return
             finish(cur)
             return
+
+        # ---- mem::drop(guard): the guard's Drop runs here
+        if n == "core::mem::drop" and t.get("cb_local_adts") and t["args"] and ("mv" in t["args"][0]) and not t["args"][0]["mv"]["p"]:
+            dks = [i["items"]["drop"] for i in self.F.impls if i["trait"] == "core::ops::drop::Drop" and i["self"].split("<")[0] in t["cb_local_adts"] and "drop" in i["items"]]
+            if dks:
+                finish(self._drop_effects(body, tracked, t["args"][0]["mv"]["l"], dks, cur))
+                return
 
         # ---- bitwise duplication
         if n in READ_PRIMS and can and can[READ_PRIMS[n]] == "self":
@@ -1177,8 +1197,8 @@ class Solver:
                     # lenheap fact survives only if the callee did not reassign
                     if s2.asg:
                         s3 = s3._replace(facts=frozenset(f for f in s3.facts if f[0] != "lenheap"))
-                    if cls == "unwind":
-                        unwind_exit({s3}, "callee unwinds")
+                    if isinstance(cls, str) and cls.startswith("unwind"):
+                        unwind_exit({self._setfact(s3, "allocpanic", True) if cls == "unwind:alloc" else s3}, "callee unwinds")
                         continue
                     if cls in ("Ok", "Err", "Some", "None", True, False) or (isinstance(cls, tuple) and cls and cls[0] == "enum"):
                         s3 = self._setfact(s3, bb, cls)
@@ -1188,6 +1208,36 @@ class Solver:
             finish(out)
             return
 
+        # ---- helpers over raw parts: a local function that receives the handle's buffer pointer
+        # (dealloc_raw(ptr, ..), allocation_start(ptr, ..)) runs in the same ownership state
+        ptr_args = [i for i, c in enumerate(can) if c == "bufptr"]
+        if not self_args and ptr_args and key and key in self.F.bodies and self.F.bodies[key].j["kind"] != "closure":
+            cb = self.F.bodies[key]
+            i = ptr_args[0]
+            out = set()
+            for s in cur:
+                self.ctx_stack.append(body.path)
+                self.pclass_stack.append(())
+                try:
+                    res = self.summary(cb, ("ptrparam", i + 1), s)
+                finally:
+                    self.ctx_stack.pop()
+                    self.pclass_stack.pop()
+                for cls, s2 in res:
+                    s3 = s._replace(ref=s2.ref, acq=s2.acq, inc=s2.inc, dirty=s.dirty or s2.dirty)
+                    if isinstance(cls, str) and cls.startswith("unwind"):
+                        unwind_exit({s3}, "callee unwinds")
+                        continue
+                    out.add(s3._replace(facts=frozenset(f for f in s3.facts if f[0] != bb)))
+            finish(out)
+            return
+
+        if self_args and not key and n.startswith("core::panicking::"):
+            # assert_eq!(.., self as *const _): the panic machinery only formats what it is given
+            if "nounwind" not in n:
+                unwind_exit(cur, n)
+            finish(cur)
+            return
         if self_args and not key:
             # tracked object handed to a non-local function
             self._foreign(body, tracked, bb, t, n, args, can, cur, finish)
@@ -1196,7 +1246,24 @@ class Solver:
         # ---- replace-by-value into self handled above (local). Other calls: no effect on the
         # tracked object; user-code edges and explicit panics are exits.
         if self._is_exit_edge(t, n):
-            unwind_exit(cur, n)
+            if self._is_alloc_panic(n) and args:
+                # the panic taken when an allocation was refused: only tuples whose Result is not known
+                # to be Ok take it; they are marked so that the API-level exit can be judged (C05)
+                a0 = strip_refs(args[0])
+                src = a0[1] if a0[0] == "call" else None
+                st = set()
+                for s in cur:
+                    cls = dict((a, b) for (a, b) in s.facts if isinstance(a, int)).get(src)
+                    if isinstance(cls, str) and cls.split(":")[0] == "Ok":
+                        continue
+                    st.add(self._setfact(s, "allocpanic", True))
+                unwind_exit(st, n)
+            else:
+                unwind_exit(cur, n)
+        if n == "core::iter::traits::iterator::Iterator::next" and not t.get("resolved"):
+            # iterator-driven operations may stop between items: what was appended for earlier items
+            # stays; failure atomicity is judged per item
+            cur = {s._replace(dirty=False) for s in cur}
         # result class facts for Result/Option-returning calls that do not touch self: none
         out = set()
         for s in cur:
@@ -1205,8 +1272,22 @@ class Solver:
             out.add(s)
         finish(out)
 
+    def _uw(self):
+        if not hasattr(self, "_uwname"):
+            import r_api
+            self._uwname = r_api.find_unwrap_helper(self.F)
+        return self._uwname
+
+    def _is_alloc_panic(self, n):
+        return n.endswith("::unwrap_with_msg") or n == self._uw()[0]
+
+    def _unwind_cls(self, s):
+        return "unwind:alloc" if ("allocpanic", True) in s.facts else "unwind"
+
     def _is_exit_edge(self, t, n):
         if not t.get("resolved"):
+            return True
+        if n == self._uw()[0] or n == self._uw()[1]:
             return True
         if n.startswith("core::panicking::") and "nounwind" not in n:
             return True
